@@ -37,6 +37,8 @@ pub struct Trace {
     pub exit: Option<(i32, String)>,
     pub tasks: Vec<TaskEnd>,
     pub steps: u64,
+    /// simulated nanoseconds elapsed (timeouts / sleeps / stalls; 0 for most runs)
+    pub sim_ns: u64,
     pub fired: Vec<FiredFault>,
     pub wakes: Vec<(u64, u32, u32)>,
     pub panics: Vec<usize>,
@@ -74,6 +76,9 @@ impl Trace {
                     for kv in &f[1..] {
                         if let Some(v) = kv.strip_prefix("steps=") {
                             t.steps = v.parse().unwrap_or(0);
+                        }
+                        if let Some(v) = kv.strip_prefix("sim_ns=") {
+                            t.sim_ns = v.parse().unwrap_or(0);
                         }
                     }
                 }
